@@ -14,6 +14,11 @@ package checkpoint
 //@   properties C07
 //@   modifies nothing
 
+//@ func CheckpointInfo.MTimeKey
+//@   arith int
+//@   properties C07 C17
+//@   modifies nothing
+
 //@ func CheckpointInfo.OffsetKey
 //@   arith int
 //@   properties C07
@@ -75,3 +80,19 @@ package checkpoint
 //@   ghost var phase mathint = 0
 //@   requires nonnil: outCli != nil
 //@   modifies heap, curDb, cpDb, phase, replayFailed
+
+// Garbage collection of stale checkpoints: a deletion request is issued only for an entry that
+// is older than the limit and, when the newest entry must be kept, not for the newest one.
+//@ func fetchCheckpoint(runIds, cli, db, checkpointName) (cpi, err)
+//@   trusted abstract bookkeeping store
+//@   modifies curDb
+//@   ensures found: err == nil ==> cpi != nil && fresh(cpi)
+
+//@ func DelStaleCheckpoint
+//@   arith int
+//@   properties C17
+//@   ghost var curDb mathint
+//@   requires nonnil: cli != nil
+//@   modifies heap, curDb, replayFailed, reqs, lastCmd, lastNArgs, lastA1, lastA2, lastA3, lastA4, lastReply
+//@   assert at call Do: never_the_newest: arg0 == "hdel" ==> !(exceptNewest && db#2 == newestDb)
+//@   assert at call Do: only_stale: arg0 == "hdel" ==> cpi#2.Mtime <= before
